@@ -1,0 +1,23 @@
+//go:build !verif
+
+// Package verifhook holds observation hooks used by external verification
+// machinery. Without the "verif" build tag every function is an empty stub.
+package verifhook
+
+import mathrand "math/rand"
+
+const Enabled = false
+
+func Event(kind string, kv ...any) {}
+
+func Point(name string) {}
+
+func WrapSource(src mathrand.Source) mathrand.Source { return src }
+
+func FileDigest(path string) string { return "" }
+
+func RandDone() {}
+
+func Hex(b []byte) string { return "" }
+
+func BytesDigest(b []byte) string { return "" }
